@@ -28,7 +28,7 @@ Tup2Rec(t) == [term |-> t[1], pos |-> t[2], bp |-> t[3]]
 Expected(c, ev, dv) == CASE ev.op = "at" -> ObsAtW(c, ev.ts, dv)
                          [] ev.op = "single" -> [res |-> SingleClass(ev.c)]
                          [] OTHER -> [none |-> 0]
-Actual(c, ev) == CASE ev.op = "at" -> [sched |-> Norm(c, Tup2Rec(ev.sched)), acc |-> ev.acc]
+Actual(c, ev) == CASE ev.op = "at" -> [sched |-> Norm(c, Tup2Rec(ev.sched), ev.ts), acc |-> ev.acc]
                    [] ev.op = "single" -> [res |-> ev.res]
                    [] OTHER -> [none |-> 0]
 
